@@ -276,6 +276,9 @@ for _pid in ("C01", "C02", "C03", "C04", "C05", "C06", "C07", "C08", "C09", "C10
         _a = _r.get("args", {})
         _q = list(_a.get("quick", []))
         _t = _q if _pid in _DL_THOROUGH_AT_QUICK else list(_a.get("thorough", []))
+        if _pid == "C02":
+            _q = _q + ["--lookahead=0"]          # the look-ahead pass is done at level 0; the level run repeats the plain search
+            _t = _q
         _d["args"] = {"quick": _q + ["--dlevel=9999"], "thorough": [x for x in _t if x != "--lookahead=0"] + ["--dlevel=9999"]}
         _extra.append(_d)
     _P["runs"] = _P["runs"] + _extra
